@@ -1,4 +1,6 @@
 import TflModel.Lemmas.Kfl
+import TflModel.Props.C02
+import TflModel.Props.C05
 /-!
 # C19 — gradients delivered to training equal the true derivatives
 
@@ -7,13 +9,19 @@ with (`Tfl.Kfl.gradFactor`: `divide_no_nan` branch + single-zero branch) is the 
 other entries, for every list and every pattern of exact zeros, and that product IS the partial
 derivative of the plain product (the product is affine in each entry with that slope).
 
-T2: for Lattice / PWLCalibration / CategoricalCalibration the models of the other slices
-(`Model/LatticeEval.lean`, `PwlEval.lean`) did not exist when this file was written, so T2 is stated
-over an ABSTRACT weight vector: every one of these layers evaluates `out = dot w K` where `w` (the
-interpolation weights of the example; `1 :: ramp weights` for PWL, one-hot for categorical) does not
-depend on `K`; the harness ties each real layer's output and Jacobian to this form with weights
-recomputed independently. Non-negativity / sum-to-one of the weights is proved here for the
-1-D hat weights `Tfl.Kfl.interpWeights` only (Lattice's own weights belong to C02's model).
+T2: every one of Lattice / PWLCalibration / CategoricalCalibration evaluates `out = dot w K` where `w`
+does not depend on `K`. First the generic form (`dot_set_sub`, `dot_add`, `dot_smul`: exact
+difference quotient `w_j`, additivity, homogeneity), then — section "T2 on the real evaluation
+models" — the instantiation on the models of the other slices:
+* `Tfl.LatticeEval.evalHypercube` = `dot (hypercubeWeights form clipOn sizes x) kernel`; the weights
+  are the row-major products of hat weights, `≥ 0`, sum to one for in-range / clipped inputs (C02);
+* `Tfl.LatticeEval.evalSimplex` = `dot (simplexKernelWeights …) kernel` (scatter of the `rank+1`
+  simplex weights at the kernel-independent gather indices), `≥ 0`, sum to one;
+* `Tfl.PwlEval.calibrate` = `dot (pwlCoeffs cfg ws x) kernel` (`1` for the bias row, clipped ramp
+  weights for the height rows, cyclic closing height folded in); `call` adds the missing blend;
+* `Tfl.Categorical.call` = `dot (catSelector n default x) kernel`, a one-hot (or zero) selector.
+In each case the exact difference quotient in kernel entry `j` is the `j`-th coefficient, whatever
+the kernel. The harness additionally ties each real layer's Jacobian to these weights.
 -/
 namespace Tfl.C19
 open Tfl Tfl.Kfl Tfl.Poset
@@ -110,5 +118,429 @@ theorem dot_smul : ∀ (w K : List Rat) (c : Rat), dot w (K.map (c * ·)) = c * 
 
 example : dot [1/4, 3/4] ([10, 20].set 1 24) - dot [1/4, 3/4] ([10, 20].set 1 20) = 3/4 * (24 - 20) := by
   decide +kernel
+
+/-! ## T2 on the real evaluation models -/
+
+/-- the three layer models each carry their own copy of `dot`; they are the same function -/
+theorem latDot_eq : ∀ (w K : List Rat), LatticeEval.dot w K = dot w K
+  | [], K => by simp [LatticeEval.dot, dot]
+  | _ :: _, [] => by simp [LatticeEval.dot, dot]
+  | a :: w, k :: K => by
+    have := latDot_eq w K
+    simp only [LatticeEval.dot, dot, List.zipWith_cons_cons, rsum] at *
+    rw [this]
+
+theorem pwlDot_eq : ∀ (w K : List Rat), PwlEval.dot w K = dot w K
+  | [], K => by simp [PwlEval.dot, dot]
+  | _ :: _, [] => by simp [PwlEval.dot, dot]
+  | a :: w, k :: K => by
+    have := pwlDot_eq w K
+    simp only [PwlEval.dot, dot] at *
+    rw [this]
+
+theorem dot_replicate_one : ∀ (w : List Rat) (n : Nat), w.length ≤ n → dot w (List.replicate n 1) = rsum w
+  | [], n, _ => by simp [dot, rsum]
+  | a :: w, 0, h => by simp at h
+  | a :: w, n + 1, h => by
+    have := dot_replicate_one w n (by simpa using h)
+    simp only [dot, List.replicate_succ, rsum, this]; ring
+
+
+/-! ### (a) Lattice, hypercube interpolation -/
+
+/-- **C19/T2, Lattice (hypercube).** Whenever `verify_hyperparameters` accepts, the layer output for
+one example is `dot (hypercubeWeights form clipOn sizes x) kernel`: the weight vector is a function
+of the input point (and of the static configuration) ONLY — the kernel does not occur in it. -/
+theorem lattice_output_eq_dot_weights (form : LatticeEval.InputForm) (clipOn : Bool) (sizes : List Nat)
+    (kernel x : List Rat) (hs : ∀ n ∈ sizes, 2 ≤ n) (hl : x.length = sizes.length) :
+    LatticeEval.evalHypercube form clipOn sizes kernel x
+      = .ok (dot (LatticeEval.hypercubeWeights form clipOn sizes x) kernel) := by
+  rw [C02.C02_T1_evalHypercube_ok form clipOn sizes kernel x hs hl, LatticeEval.hypercubeValue, latDot_eq]
+
+/-- **C19/T2, Lattice: ∂out/∂K_j = weight_j, whatever the kernel's value.** Exact difference
+quotient of the real evaluation model in kernel entry `j`. -/
+theorem lattice_kernel_difference_quotient (form : LatticeEval.InputForm) (clipOn : Bool) (sizes : List Nat)
+    (K x : List Rat) (j : Nat) (v v' : Rat) (hj : j < K.length) :
+    LatticeEval.hypercubeValue form clipOn sizes (K.set j v) x
+        - LatticeEval.hypercubeValue form clipOn sizes (K.set j v') x
+      = getR (LatticeEval.hypercubeWeights form clipOn sizes x) j * (v - v') := by
+  simp only [LatticeEval.hypercubeValue, latDot_eq]
+  exact dot_set_sub _ K j v v' hj
+
+/-- the same on the `Except` level of `evalHypercube` (accepted configurations) -/
+theorem lattice_eval_kernel_difference_quotient (form : LatticeEval.InputForm) (clipOn : Bool)
+    (sizes : List Nat) (K x : List Rat) (j : Nat) (v v' : Rat) (hj : j < K.length)
+    (hs : ∀ n ∈ sizes, 2 ≤ n) (hl : x.length = sizes.length) :
+    ∃ a b, LatticeEval.evalHypercube form clipOn sizes (K.set j v) x = .ok a ∧
+      LatticeEval.evalHypercube form clipOn sizes (K.set j v') x = .ok b ∧
+      a - b = getR (LatticeEval.hypercubeWeights form clipOn sizes x) j * (v - v') :=
+  ⟨_, _, C02.C02_T1_evalHypercube_ok form clipOn sizes _ x hs hl,
+    C02.C02_T1_evalHypercube_ok form clipOn sizes _ x hs hl,
+    lattice_kernel_difference_quotient form clipOn sizes K x j v v' hj⟩
+
+/-- **C19/T2, Lattice: exact linearity in the kernel** (additivity and homogeneity). -/
+theorem lattice_linear_in_kernel (form : LatticeEval.InputForm) (clipOn : Bool) (sizes : List Nat)
+    (K K' x : List Rat) (c : Rat) (h : K.length = K'.length) :
+    LatticeEval.hypercubeValue form clipOn sizes (List.zipWith (· + ·) K K') x
+        = LatticeEval.hypercubeValue form clipOn sizes K x + LatticeEval.hypercubeValue form clipOn sizes K' x ∧
+    LatticeEval.hypercubeValue form clipOn sizes (K.map (c * ·)) x
+        = c * LatticeEval.hypercubeValue form clipOn sizes K x := by
+  simp only [LatticeEval.hypercubeValue, latDot_eq]
+  exact ⟨dot_add _ K K' h, dot_smul _ K c⟩
+
+/-- **C19/T2, Lattice: the Jacobian row is a convex weight vector.** For in-range or clipped inputs
+the kernel-independent weights are the row-major products of the 1-D hat weights of the (clipped)
+point, are `≥ 0` and sum to one (from `C02_T1_weights`, `C02_T2_convex_weights`). -/
+theorem lattice_jacobian_row_convex (form : LatticeEval.InputForm) (clipOn : Bool) (sizes : List Nat)
+    (x : List Rat) (hs : sizes ≠ []) (hs2 : ∀ n ∈ sizes, 2 ≤ n) (h : C02.Defined clipOn sizes x) :
+    LatticeEval.hypercubeWeights form clipOn sizes x
+        = (allIdx sizes).map (LatticeEval.prodW (C02.effPoint clipOn sizes x)) ∧
+    (∀ j, 0 ≤ getR (LatticeEval.hypercubeWeights form clipOn sizes x) j) ∧
+    rsum (LatticeEval.hypercubeWeights form clipOn sizes x) = 1 := by
+  have hc := C02.C02_T2_convex_weights form clipOn sizes x hs hs2 h
+  refine ⟨C02.C02_T1_weights form clipOn sizes x hs h.1 (h.2.elim Or.inl (fun r => Or.inr (Or.inl r))), ?_, hc.2⟩
+  intro j
+  unfold getR
+  rcases Nat.lt_or_ge j (LatticeEval.hypercubeWeights form clipOn sizes x).length with hj | hj
+  · have : (LatticeEval.hypercubeWeights form clipOn sizes x).getD j 0
+        = (LatticeEval.hypercubeWeights form clipOn sizes x)[j] := by simp [List.getD_eq_getElem?_getD, hj]
+    rw [this]; exact hc.1 _ (List.getElem_mem hj)
+  · simp [List.getD_eq_getElem?_getD, hj]
+
+
+/-! ### (a') Lattice, simplex interpolation -/
+
+theorem dot_range_map : ∀ (K : List Rat) (f : Nat → Rat),
+    dot ((List.range K.length).map f) K = LatticeEval.sumR K.length (fun j => f j * K.getD j 0)
+  | [], f => by simp [dot, LatticeEval.sumR]
+  | k :: K, f => by
+    have ih := dot_range_map K (fun j => f (j + 1))
+    simp only [LatticeEval.sumR] at ih ⊢
+    simp only [List.length_cons, List.range_succ_eq_map, List.map_cons, List.map_map, dot, rsum,
+      Function.comp_def, Nat.succ_eq_add_one]
+    rw [ih]
+    simp
+
+/-- scatter-add of the weights `ws` at the (flat) gather indices `is`, over a kernel of length `n`:
+entry `j` collects the weights of all gather positions that read kernel entry `j`. -/
+def scatterW (n : Nat) (is : List Int) (ws : List Rat) : List Rat :=
+  (List.range n).map (fun j => rsum ((is.zip ws).map (fun p => if p.1.toNat = j then p.2 else 0)))
+
+/-- gather-then-dot = dot with the scattered weights: `Σ_k w_k·K[i_k] = Σ_j (Σ_{k : i_k = j} w_k)·K[j]` -/
+theorem dot_gather_eq_dot_scatter (K : List Rat) : ∀ (is : List Int) (ws : List Rat),
+    (∀ i ∈ is, i.toNat < K.length) →
+    dot (is.map (fun i => K.getD i.toNat 0)) ws = dot (scatterW K.length is ws) K
+  | [], ws, _ => by
+    rw [scatterW, dot_range_map]
+    simp [dot, LatticeEval.sumR_const_zero]
+  | i :: is, [], _ => by
+    rw [scatterW, dot_range_map]
+    simp [dot, LatticeEval.sumR_const_zero]
+  | i :: is, w :: ws, h => by
+    have ih := dot_gather_eq_dot_scatter K is ws (fun j hj => h j (by simp [hj]))
+    have hi : i.toNat < K.length := h i (by simp)
+    rw [scatterW, dot_range_map] at ih ⊢
+    simp only [List.map_cons, dot, List.zip_cons_cons, rsum]
+    rw [ih]
+    have e : ∀ j, j < K.length →
+        ((if i.toNat = j then w else 0) +
+            rsum ((is.zip ws).map (fun p => if p.1.toNat = j then p.2 else 0))) * K.getD j 0
+          = (if j = i.toNat then 1 else 0) * (w * K.getD j 0)
+            + rsum ((is.zip ws).map (fun p => if p.1.toNat = j then p.2 else 0)) * K.getD j 0 := by
+      intro j _
+      by_cases hj : i.toNat = j
+      · simp [hj]; ring
+      · have : ¬ j = i.toNat := fun e => hj e.symm
+        simp [hj, this]
+    rw [LatticeEval.sumR_congr _ _ _ e, LatticeEval.sumR_add,
+      LatticeEval.sumR_ite _ _ hi (fun j => w * K.getD j 0)]
+    ring
+
+theorem scatterW_nonneg (n : Nat) (is : List Int) (ws : List Rat) (hw : ∀ w ∈ ws, 0 ≤ w) (j : Nat) :
+    0 ≤ getR (scatterW n is ws) j := by
+  unfold getR scatterW
+  rcases Nat.lt_or_ge j n with hj | hj
+  · have : ∀ (l : List (Int × Rat)), (∀ p ∈ l, 0 ≤ p.2) →
+        0 ≤ rsum (l.map (fun p => if p.1.toNat = j then p.2 else 0)) := by
+      intro l
+      induction l with
+      | nil => intro _; simp
+      | cons p l ih =>
+        intro hp
+        have h1 := ih (fun q hq => hp q (by simp [hq]))
+        have h2 := hp p (by simp)
+        simp only [List.map_cons, rsum]
+        split_ifs <;> linarith
+    simp only [List.getD_eq_getElem?_getD, List.getElem?_map, List.getElem?_range hj, Option.map_some,
+      Option.getD_some]
+    exact this _ (fun p hp => hw _ (List.of_mem_zip hp).2)
+  · simp [List.getD_eq_getElem?_getD, hj]
+
+/-- the kernel-independent weight vector of `evaluate_with_simplex_interpolation` over a flat kernel
+of length `n` (scatter of the `rank+1` simplex weights at the gather indices; both the gather
+indices `sIndices` and the weights depend on the input point only) -/
+def simplexKernelWeights (clipOn : Bool) (sizes : List Nat) (x : List Rat) (n : Nat) : List Rat :=
+  scatterW n (C02.sIndices clipOn sizes x)
+    (LatticeEval.simplexWeights ((C02.sSorted clipOn sizes x).map (·.1)))
+
+/-- **C19/T2, Lattice (simplex).** Whenever the code does not raise (hyperparameters accepted, no
+gather index outside the kernel), the simplex output is `dot W kernel` with the kernel-independent
+vector `W = simplexKernelWeights …` (which depends on the kernel's LENGTH only). -/
+theorem simplex_output_eq_dot_weights (clipOn : Bool) (sizes : List Nat) (kernel x : List Rat)
+    (hv : LatticeEval.verify sizes x = true)
+    (hb : ∀ i ∈ C02.sIndices clipOn sizes x, 0 ≤ i ∧ i.toNat < kernel.length) :
+    LatticeEval.evalSimplex clipOn sizes kernel x
+      = .ok (dot (simplexKernelWeights clipOn sizes x kernel.length) kernel) := by
+  have h := LatticeEval.mapM_gatherAt_ok kernel _ hb
+  unfold LatticeEval.evalSimplex
+  simp only [hv, if_true]
+  simp only [C02.sIndices, C02.sOffset, C02.sSorted, C02.sResid, C02.effPoint] at h
+  rw [h]
+  simp only [latDot_eq]
+  have := dot_gather_eq_dot_scatter kernel (C02.sIndices clipOn sizes x)
+    (LatticeEval.simplexWeights ((C02.sSorted clipOn sizes x).map (·.1))) (fun i hi => (hb i hi).2)
+  simp only [C02.sIndices, C02.sOffset, C02.sSorted, C02.sResid, C02.effPoint] at this
+  rw [simplexKernelWeights]
+  simp only [C02.sIndices, C02.sOffset, C02.sSorted, C02.sResid, C02.effPoint]
+  rw [this]
+
+
+theorem dot_ones_left : ∀ (is : List Int) (ws : List Rat), ws.length ≤ is.length →
+    dot (is.map (fun _ => (1 : Rat))) ws = rsum ws
+  | _, [], _ => by cases ‹List Int› <;> simp [dot, rsum]
+  | [], w :: ws, h => by simp at h
+  | i :: is, w :: ws, h => by
+    have := dot_ones_left is ws (by simpa using h)
+    simp only [List.map_cons, dot, rsum, this]; ring
+
+theorem rsum_scatterW (n : Nat) (is : List Int) (ws : List Rat) (hb : ∀ i ∈ is, i.toNat < n)
+    (hl : ws.length ≤ is.length) : rsum (scatterW n is ws) = rsum ws := by
+  have h1 := dot_replicate_one (scatterW n is ws) n (by simp [scatterW])
+  have h2 := dot_gather_eq_dot_scatter (List.replicate n 1) is ws (by simpa using hb)
+  simp only [List.length_replicate] at h2
+  rw [← h1, ← h2, ← dot_ones_left is ws hl]
+  congr 1
+  apply List.map_congr_left
+  intro i hi
+  have := hb i hi
+  simp [List.getD_eq_getElem?_getD, this]
+
+theorem length_cumsumFrom (acc : Int) (l : List Int) : (LatticeEval.cumsumFrom acc l).length = l.length := by
+  induction l generalizing acc with
+  | nil => rfl
+  | cons a l ih => simp [LatticeEval.cumsumFrom, ih]
+
+/-- **C19/T2, Lattice (simplex): the Jacobian row is a convex weight vector.** For in-range or
+clipped inputs whose gather indices stay inside a kernel of length `n` (otherwise the code raises),
+the kernel-independent simplex weight vector is `≥ 0` and sums to one. -/
+theorem simplex_jacobian_row_convex (clipOn : Bool) (sizes : List Nat) (x : List Rat) (n : Nat)
+    (hs2 : ∀ m ∈ sizes, 2 ≤ m) (h : C02.Defined clipOn sizes x)
+    (hb : ∀ i ∈ C02.sIndices clipOn sizes x, i.toNat < n) :
+    (∀ j, 0 ≤ getR (simplexKernelWeights clipOn sizes x n) j) ∧
+      rsum (simplexKernelWeights clipOn sizes x n) = 1 := by
+  have hc := C02.C02_T3_simplex_weights clipOn sizes x hs2 h
+  refine ⟨scatterW_nonneg _ _ _ hc.1, ?_⟩
+  rw [simplexKernelWeights, rsum_scatterW _ _ _ hb, hc.2]
+  simp [C02.sIndices, length_cumsumFrom, LatticeEval.simplexWeights]
+
+/-- **C19/T2, Lattice (simplex): ∂out/∂K_j = W_j, whatever the kernel's value** (exact difference
+quotient; `K.set` keeps the length, hence the same `W`). -/
+theorem simplex_kernel_difference_quotient (clipOn : Bool) (sizes : List Nat) (K x : List Rat) (j : Nat)
+    (v v' : Rat) (hj : j < K.length) (hv : LatticeEval.verify sizes x = true)
+    (hb : ∀ i ∈ C02.sIndices clipOn sizes x, 0 ≤ i ∧ i.toNat < K.length) :
+    ∃ a b, LatticeEval.evalSimplex clipOn sizes (K.set j v) x = .ok a ∧
+      LatticeEval.evalSimplex clipOn sizes (K.set j v') x = .ok b ∧
+      a - b = getR (simplexKernelWeights clipOn sizes x K.length) j * (v - v') := by
+  have e1 := simplex_output_eq_dot_weights clipOn sizes (K.set j v) x hv (by simpa using hb)
+  have e2 := simplex_output_eq_dot_weights clipOn sizes (K.set j v') x hv (by simpa using hb)
+  rw [List.length_set] at e1 e2
+  exact ⟨_, _, e1, e2, dot_set_sub _ K j v v' hj⟩
+
+
+/-! ### (b) PWLCalibration -/
+
+/-- the ramp weights of the pieces (`compute_interpolation_weights` without the leading bias `1`):
+a function of the input, the keypoints and the (softmax) piece lengths only -/
+def pwlRamps (cfg : PwlEval.Cfg) (ws : List Rat) (x : Rat) : List Rat :=
+  List.zipWith (fun k l => PwlEval.ramp x k l) (PwlEval.interpKeypoints cfg ws) (PwlEval.lengths cfg ws)
+
+/-- kernel-independent coefficient vector of `PWLCalibration.call`: `1` for the bias row, the ramp
+weight for each height row; with `is_cyclic` the closing height `-Σ kernel[1:]` folds the last
+ramp weight (with a minus sign) into every height row. -/
+def pwlCoeffs (cfg : PwlEval.Cfg) (ws : List Rat) (x : Rat) : List Rat :=
+  1 :: (if cfg.isCyclic then
+          (pwlRamps cfg ws x).dropLast.map (fun r => r - (pwlRamps cfg ws x).getLastD 0)
+        else pwlRamps cfg ws x)
+
+theorem dot_append_singleton : ∀ (r t : List Rat) (l c : Rat), r.length = t.length →
+    dot (r ++ [l]) (t ++ [c]) = dot r t + l * c
+  | [], [], l, c, _ => by simp [dot]
+  | [], _ :: _, _, _, h => by simp at h
+  | _ :: _, [], _, _, h => by simp at h
+  | a :: r, b :: t, l, c, h => by
+    have := dot_append_singleton r t l c (by simpa using h)
+    simp only [List.cons_append, dot, this]; ring
+
+theorem dot_map_sub : ∀ (r t : List Rat) (l : Rat), r.length = t.length →
+    dot (r.map (fun a => a - l)) t = dot r t - l * rsum t
+  | [], [], l, _ => by simp [dot, rsum]
+  | [], _ :: _, _, h => by simp at h
+  | _ :: _, [], _, h => by simp at h
+  | a :: r, b :: t, l, h => by
+    have := dot_map_sub r t l (by simpa using h)
+    simp only [List.map_cons, dot, rsum, this]; ring
+
+theorem pwlRamps_length {cfg : PwlEval.Cfg} {kernel ws : List Rat} (h : PwlEval.WF cfg kernel ws) (x : Rat) :
+    (pwlRamps cfg ws x).length + 1 = cfg.inputKeypoints.length := by
+  have hl := PwlEval.lengths_length h
+  simp [pwlRamps, PwlEval.interpKeypoints_eq h, PwlEval.length_cumsumExcl, hl]
+
+/-- **C19/T2, PWLCalibration.** For every well-formed layer the calibration is
+`dot (pwlCoeffs cfg ws x) kernel`: LINEAR in the kernel (bias row + height rows) with coefficients
+that do not mention the kernel — `1` and the clipped ramp weights. -/
+theorem pwl_output_eq_dot_coeffs {cfg : PwlEval.Cfg} {kernel ws : List Rat} (h : PwlEval.WF cfg kernel ws)
+    (x : Rat) : PwlEval.calibrate cfg kernel ws x = dot (pwlCoeffs cfg ws x) kernel := by
+  have hr := pwlRamps_length h x
+  have hk := h.klen
+  unfold PwlEval.calibrate PwlEval.interpWeights PwlEval.biasAndHeights pwlCoeffs
+  rw [pwlDot_eq]
+  change dot (1 :: pwlRamps cfg ws x) _ = _
+  by_cases hc : cfg.isCyclic = true
+  · simp only [hc, if_true] at hk ⊢
+    cases kernel with
+    | nil => simp at hk; have := h.two; omega
+    | cons b t =>
+      have hne : pwlRamps cfg ws x ≠ [] := by
+        intro e; rw [e] at hr; simp at hr hk; omega
+      have hsplit := List.dropLast_append_getLast hne
+      have hlen : (pwlRamps cfg ws x).dropLast.length = t.length := by
+        simp at hk ⊢; omega
+      have hlast : (pwlRamps cfg ws x).getLastD 0 = (pwlRamps cfg ws x).getLast hne := by
+        rw [List.getLastD_eq_getLast?, List.getLast?_eq_some_getLast hne]; rfl
+      simp only [List.cons_append, dot, List.tail_cons]
+      rw [hlast, dot_map_sub _ _ _ hlen]
+      conv_lhs => rw [← hsplit]
+      rw [dot_append_singleton _ _ _ _ hlen]
+      ring
+  · simp only [hc, if_false, Bool.false_eq_true]
+
+/-- **C19/T2, PWLCalibration: ∂out/∂K_j = coefficient_j, whatever the kernel's value.** -/
+theorem pwl_kernel_difference_quotient {cfg : PwlEval.Cfg} {K ws : List Rat} (h : PwlEval.WF cfg K ws)
+    (x : Rat) (j : Nat) (v v' : Rat) (hj : j < K.length) :
+    PwlEval.calibrate cfg (K.set j v) ws x - PwlEval.calibrate cfg (K.set j v') ws x
+      = getR (pwlCoeffs cfg ws x) j * (v - v') := by
+  have wf : ∀ u, PwlEval.WF cfg (K.set j u) ws := fun u =>
+    ⟨h.two, h.incr, by simpa using h.klen, h.wlen, h.wpos, h.wsum⟩
+  rw [pwl_output_eq_dot_coeffs (wf v), pwl_output_eq_dot_coeffs (wf v')]
+  exact dot_set_sub _ K j v v' hj
+
+/-- **C19/T2, PWLCalibration: the whole `call` is affine in the kernel.** With the missing-value
+blend `m·missing_output + (1-m)·calibration` the kernel enters through `(1-m)·dot coeffs kernel`. -/
+theorem pwl_call_affine_in_kernel {cfg : PwlEval.Cfg} {kernel ws : List Rat}
+    (mo x : Rat) (isMissing : Option Rat) (r : Rat)
+    (hc : PwlEval.call cfg kernel ws mo x isMissing = .ok r) :
+    ∃ m : Rat, (∀ kernel', PwlEval.WF cfg kernel' ws →
+        PwlEval.call cfg kernel' ws mo x isMissing
+          = .ok (m * mo + (1 - m) * dot (pwlCoeffs cfg ws x) kernel')) := by
+  unfold PwlEval.call at hc
+  split_ifs at hc with h1 h2
+  · cases isMissing with
+    | some m =>
+      refine ⟨m, fun k' hk' => ?_⟩
+      rw [← pwl_output_eq_dot_coeffs hk']
+      simp [PwlEval.call, h2]
+    | none =>
+      cases hv : cfg.missingInputValue with
+      | none => simp [hv] at hc
+      | some mv =>
+        refine ⟨if x = mv then 1 else 0, fun k' hk' => ?_⟩
+        rw [← pwl_output_eq_dot_coeffs hk']
+        simp [PwlEval.call, h2, hv]
+  · refine ⟨0, fun k' hk' => ?_⟩
+    rw [← pwl_output_eq_dot_coeffs hk']
+    have h2' : cfg.imputeMissing = false := by simpa using h2
+    cases isMissing with
+    | some m => simp [h2'] at h1
+    | none => simp [PwlEval.call, h2']
+
+/-- the ramp coefficients lie in `[0, 1]` (non-cyclic rows): clipped ramps -/
+theorem pwlRamps_mem (cfg : PwlEval.Cfg) (ws : List Rat) (x : Rat) :
+    ∀ r ∈ pwlRamps cfg ws x, 0 ≤ r ∧ r ≤ 1 := by
+  intro r hr
+  unfold pwlRamps at hr
+  obtain ⟨i, hi, rfl⟩ := List.mem_iff_getElem.mp hr
+  simp only [List.getElem_zipWith]
+  exact ⟨PwlEval.ramp_nonneg _ _ _, PwlEval.ramp_le_one _ _ _⟩
+
+/-! ### (c) CategoricalCalibration -/
+
+/-- the row `CategoricalCalibration.call` looks up: the category itself, or the last bucket for
+`default_input_value` — a function of the input and the number of buckets only -/
+def catIndex (n : Nat) (default : Option Int) (x : Int) : Int :=
+  match default with
+  | some d => if x = d then (n : Int) - 1 else x
+  | none => x
+
+/-- the kernel-independent one-hot selector over `n` buckets (all zero for an out-of-range category) -/
+def catSelector (n : Nat) (default : Option Int) (x : Int) : List Rat :=
+  (List.range n).map (fun (j : Nat) => if (j : Int) = catIndex n default x then 1 else 0)
+
+theorem dot_onehot (K : List Rat) (i : Int) :
+    dot ((List.range K.length).map (fun (j : Nat) => if (j : Int) = i then (1 : Rat) else 0)) K
+      = if 0 ≤ i ∧ i < K.length then getV K i.toNat else 0 := by
+  rw [dot_range_map]
+  split_ifs with h
+  · have hi : i.toNat < K.length := by omega
+    have e : ∀ j, j < K.length →
+        (if (j : Int) = i then (1 : Rat) else 0) * K.getD j 0 = (if j = i.toNat then 1 else 0) * K.getD j 0 := by
+      intro j _
+      have : ((j : Int) = i) ↔ (j = i.toNat) := by omega
+      simp [this]
+    rw [LatticeEval.sumR_congr _ _ _ e, LatticeEval.sumR_ite _ _ hi]; rfl
+  · have e : ∀ j, j < K.length → (if (j : Int) = i then (1 : Rat) else 0) * K.getD j 0 = 0 := by
+      intro j hj
+      have : ¬ ((j : Int) = i) := by omega
+      simp [this]
+    rw [LatticeEval.sumR_congr _ _ _ e, LatticeEval.sumR_const_zero]
+
+/-- **C19/T2, CategoricalCalibration.** The output is `dot selector kernel` with the one-hot
+(or zero) selector determined by the input alone: the kernel row selected does not depend on the
+kernel's values; ∂out/∂K_j is `1` for the selected row and `0` elsewhere. -/
+theorem categorical_output_eq_dot_selector (kernel : List Rat) (default : Option Int) (x : Int) :
+    Categorical.call kernel default x = dot (catSelector kernel.length default x) kernel := by
+  rw [catSelector, dot_onehot]
+  rfl
+
+/-- the selector is one-hot: entries are `0`/`1`, entry `j` is `1` exactly for the looked-up row -/
+theorem catSelector_get (n : Nat) (default : Option Int) (x : Int) (j : Nat) (hj : j < n) :
+    getR (catSelector n default x) j = if (j : Int) = catIndex n default x then 1 else 0 := by
+  simp [getR, catSelector, List.getD_eq_getElem?_getD, hj]
+
+/-- **C19/T2, CategoricalCalibration: exact difference quotient.** -/
+theorem categorical_kernel_difference_quotient (K : List Rat) (default : Option Int) (x : Int) (j : Nat)
+    (v v' : Rat) (hj : j < K.length) :
+    Categorical.call (K.set j v) default x - Categorical.call (K.set j v') default x
+      = (if (j : Int) = catIndex K.length default x then 1 else 0) * (v - v') := by
+  rw [categorical_output_eq_dot_selector, categorical_output_eq_dot_selector]
+  simp only [List.length_set]
+  rw [dot_set_sub _ K j v v' hj, catSelector_get _ _ _ _ hj]
+
+
+/-! ### non-vacuity of the real-model statements (kernel computation) -/
+
+example : LatticeEval.hypercubeWeights .tensor false [3, 2] [3/2, 1/4] = [0, 0, 3/8, 1/8, 3/8, 1/8] := by
+  decide +kernel
+example : C02.Defined false [3, 2] [3/2, 1/4] :=
+  ⟨rfl, Or.inr (by unfold LatticeEval.InRange LatticeEval.InRange LatticeEval.InRange; decide +kernel)⟩
+example : simplexKernelWeights false [3, 2] [3/2, 1/4] 6 = [0, 0, 1/2, 0, 1/4, 1/4] := by decide +kernel
+example : C02.sIndices false [3, 2] [3/2, 1/4] = [2, 4, 5] := by decide +kernel
+example : LatticeEval.evalSimplex false [3, 2] [0, 5, 1, 5, 4, 7] [3/2, 1/4]
+    = .ok (dot (simplexKernelWeights false [3, 2] [3/2, 1/4] 6) [0, 5, 1, 5, 4, 7]) := by decide +kernel
+example : pwlCoeffs C05.exCfg [] 2 = [1, 1, 1/2, 0] := by decide +kernel
+example : pwlCoeffs C05.exLearned [1/4, 1/2, 1/4] (7/2) = [1, 1/2, 1/2] := by decide +kernel
+example : PwlEval.calibrate C05.exLearned [1, 2, -1] [1/4, 1/2, 1/4] (7/2)
+    = dot (pwlCoeffs C05.exLearned [1/4, 1/2, 1/4] (7/2)) [1, 2, -1] := by decide +kernel
+example : catSelector 3 (some (-1)) (-1) = [0, 0, 1] ∧ catSelector 3 (some (-1)) 1 = [0, 1, 0] ∧
+    catSelector 3 (some (-1)) 5 = [0, 0, 0] := by decide +kernel
 
 end Tfl.C19
